@@ -698,11 +698,11 @@ func genCases(r *vf.Run) []ccase {
 	var out []ccase
 	out = append(out, g.headerCases(thorough)...)
 	out = append(out, g.openCases()...)
-	out = append(out, g.updateCases(r.N(24, 400))...)
+	out = append(out, g.updateCases(r.N(15, 400))...)
 	out = append(out, g.attrSweep(r.N(2, 16))...)
 	out = append(out, g.mpEmpty()...)
-	out = append(out, g.oddValid(r.N(150, 3000))...)
-	out = append(out, g.splices(r.N(2500, 150000))...)
+	out = append(out, g.oddValid(r.N(100, 3000))...)
+	out = append(out, g.splices(r.N(1500, 150000))...)
 	out = append(out, g.valid(r.N(100, 1000))...)
 	// spread the generators over the batches (a process-fatal stream costs its batch a restart)
 	r.Rand("c21-order").Shuffle(len(out), func(i, j int) { out[i], out[j] = out[j], out[i] })
